@@ -1,4 +1,4 @@
-import IoraModel.Model.Json
+import IoraModel.Model.JsonApi
 /-!
 Executable reference for the two libc primitives on JSON's floating path, in exact natural-number arithmetic:
 `strtodBits` (correctly rounded, round-half-even decimal → binary64, what glibc's `strtod` computes in the default rounding mode)
@@ -114,5 +114,28 @@ def fmtG (p : Nat) (bits : UInt64) : Bytes :=
 
 /-- the instance used by the native driver -/
 def ops : FloatOps := { strtod := strtodBits, printfG := fmtG }
+
+/-- what glibc's `strtod` consumes of `text` in a locale whose decimal point is `dp`, rewritten as a "C" token: an optional `-`,
+    digits, the locale's decimal point with digits (ANY other byte - a `.` under a decimal comma - ends the number), an exponent -/
+def delocalize (dp : Bytes) (text : Bytes) : Bytes :=
+  let (sign, r) : Bytes × Bytes := match text with
+    | b :: r => if b = 0x2D then ([0x2D], r) else ([], text)
+    | [] => ([], [])
+  let (ip, r) := takeDigits r
+  let (fp, r) : Bytes × Bytes :=
+    if dp ≠ [] ∧ dp.isPrefixOf r then
+      let (f, r') := takeDigits (r.drop dp.length)
+      (0x2E :: f, r')
+    else ([], r)
+  let ex : Bytes := match r with
+    | b :: _ => if b = 0x65 ∨ b = 0x45 then r else []
+    | [] => []
+  sign ++ ip ++ fp ++ ex
+
+/-- `std::strtod` under the decimal point `dp` -/
+def strtodL (dp : Bytes) (text : Bytes) : UInt64 := strtodBits (delocalize dp text)
+
+/-- libc + libstdc++ of the native driver: locale dependent `strtod`, locale independent `to_chars` -/
+def libc : Libc := { strtodL := strtodL, toCharsG := fmtG }
 
 end Iora.Json.FloatRef
